@@ -1,4 +1,6 @@
 import GfaModel.GraphObs
+import GfaModel.LinearPaths
+import GfaModel.Multiply
 /-
   Segment multiplication on the graph (gfapy/graph_operations/multiplication.py `multiply` with
   `distribute` off: `__divide_segment_and_connection_counts`, `__clone_segment_and_connections`).
@@ -53,5 +55,52 @@ def multiply (st : St) (s : String) (k : Nat) (names : List String) : Except Err
   else
     let lines1 := st.lines.map (fun r => if (r.rt == .S && r.name == some s) || copiedWith s r then divCounts k r else r)
     .ok { st with lines := lines1 ++ names.flatMap (copiesFor lines1 s) }
+
+-- ------------------------------------------------------------------ distribution of the links of one end
+/-- the other end of a dovetail record seen from segment end `x` (`l.other_end(x)`); for a hairpin on `x`: `x` -/
+def otherEndOf (r : Rec) (x : SegEnd) : Option SegEnd :=
+  match dovEnds r with
+  | some (a, b) => if a = x then some b else if b = x then some a else none
+  | none => none
+
+/-- the dovetails on end `x`, in stored order (`dovetails_of_end`; a hairpin is listed twice) -/
+def dovetailsOn (st : St) (x : SegEnd) : List Rec :=
+  st.lines.flatMap (fun r => match dovEnds r with
+    | some (a, b) => (if a = x then [r] else []) ++ (if b = x then [r] else [])
+    | none => [])
+
+/-- `_select_distribute_end`: `none` = no distribution -/
+def selectEnd (st : St) (policy : String) (s : String) (k : Nat) : Option Bool :=
+  match policy with
+  | "off" => none
+  | "L" => some false
+  | "R" => some true
+  | _ => Mul.autoSelect k (dovetailsOn st ⟨s, false⟩).length (dovetailsOn st ⟨s, true⟩).length (policy == "equal")
+
+/-- one copy keeps, on the distributed end, the links whose other end is among `keep` -/
+def thinOne (st : St) (x : SegEnd) (keep : List SegEnd) : St :=
+  let dead := (List.range st.lines.length).filter (fun i => match st.lines[i]? with
+    | some r => (match otherEndOf r x with
+        | some o => !keep.contains o
+        | none => false)
+    | none => false)
+  rmIdx st dead
+
+/-- `_distribute_links`: copy number `i` (0 = the original) keeps the links whose other end is one of
+    `signatures[i : i+diff+1]`, `diff = max(n - k, 0)` -/
+def distribute (st : St) (s : String) (right : Bool) (names : List String) (k : Nat) : St :=
+  let sigs := (dovetailsOn st ⟨s, right⟩).filterMap (fun r => otherEndOf r ⟨s, right⟩)
+  let diff := sigs.length - k
+  ((s :: names).zipIdx).foldl (fun acc p => thinOne acc ⟨p.1, right⟩ ((sigs.drop p.2).take (diff + 1))) st
+
+/-- `Gfa.multiply(segment, factor, copy_names, distribute=policy)` -/
+def multiplyD (st : St) (s : String) (k : Nat) (names : List String) (policy : String) : Except Err St :=
+  match multiply st s k names with
+  | .error e => .error e
+  | .ok st1 =>
+    if k < 2 then .ok st1
+    else match selectEnd st1 policy s k with
+      | none => .ok st1
+      | some right => .ok (distribute st1 s right names k)
 
 end Gfa.G
